@@ -26,14 +26,18 @@ def main():
     ap.add_argument("--seed", default="0")
     ap.add_argument("--budget-scale", default=None)
     ap.add_argument("--only", default=None)
+    ap.add_argument("--worktree", default=None,
+                    help="apply the patch in this scratch worktree and run the checks against it "
+                         "(QMON_REPO) instead of patching /repo")
     args = ap.parse_args()
     d = os.path.abspath(args.dir)
     meta = json.load(open(os.path.join(d, "meta.json")))
     props = args.props.split(",") if args.props else [meta["property"]]
-    st = sh("git -C /repo status --porcelain --untracked-files=no").stdout.strip()
+    repo = args.worktree or "/repo"
+    st = sh(f"git -C {repo} status --porcelain --untracked-files=no").stdout.strip()
     if st:
-        sys.exit("refusing: /repo is dirty:\n" + st)
-    r = sh(f"git -C /repo apply {d}/patch.diff")
+        sys.exit(f"refusing: {repo} is dirty:\n" + st)
+    r = sh(f"git -C {repo} apply {d}/patch.diff")
     if r.returncode:
         sys.exit("patch does not apply: " + r.stderr)
     results = []
@@ -44,16 +48,20 @@ def main():
                 cmd += f" --budget-scale {args.budget_scale}"
             if args.only:
                 cmd += f" --only {args.only}"
-            r = sh(cmd, timeout=7200)
+            env = dict(os.environ)
+            if args.worktree:
+                env["QMON_REPO"] = args.worktree
+            r = sh(cmd, timeout=7200, env=env)
             lines = [l for l in r.stdout.splitlines() if l.startswith(("VIOLATION", "[C", "KNOWN", "INCONCLUSIVE"))]
             mechs = sorted({l.split("mech=")[1].split(" events")[0] for l in lines if "mech=" in l})
             print(f"{os.path.basename(d)} {p} tier={args.tier} seed={args.seed} exit={r.returncode}")
             for m in mechs[:12]:
                 print("   ", m)
             results.append({"check": p, "tier": args.tier, "seed": args.seed, "exit": r.returncode,
+                            "tree": repo,
                             "caught": r.returncode == 1, "mechanisms": mechs[:20]})
     finally:
-        sh("git -C /repo checkout -- .")
+        sh(f"git -C {repo} checkout -- .")
     meta.setdefault("checks", [])
     meta["checks"] = [c for c in meta["checks"]
                       if not any(c["check"] == r["check"] and c["tier"] == r["tier"] for r in results)] + results
